@@ -79,7 +79,7 @@ end
 def field (path : Path) : Field → Out
   | .mk key nn mode rerr c =>
     match mode with
-    | .tname => .ok (match c with | .scalar s => .scalar s | _ => .null)
+    | .tname => .ok (tnameVal c)
     | _ =>
       match rerr with
       | some _ => Out.caught nn .fail
